@@ -5,6 +5,7 @@ import (
 	"github.com/invopop/gobl/currency"
 	"github.com/invopop/gobl/l10n"
 	"github.com/invopop/gobl/num"
+	"github.com/invopop/validation"
 )
 
 // CategoryTotal groups together all rates inside a given category.
@@ -44,6 +45,31 @@ type RateTotal struct {
 type RateTotalSurcharge struct {
 	Percent num.Percentage `json:"percent" jsonschema:"title=Percent"`
 	Amount  num.Amount     `json:"amount" jsonschema:"title=Amount"`
+}
+
+// Validate checks the categories of the tax total.
+func (t *Total) Validate() error {
+	return validation.ValidateStruct(t,
+		validation.Field(&t.Categories),
+	)
+}
+
+// Validate checks the category total's code and its rates.
+func (ct *CategoryTotal) Validate() error {
+	return validation.ValidateStruct(ct,
+		validation.Field(&ct.Code),
+		validation.Field(&ct.Rates),
+	)
+}
+
+// Validate checks that the rate total's key, country and extensions
+// are well formed and defined.
+func (rt *RateTotal) Validate() error {
+	return validation.ValidateStruct(rt,
+		validation.Field(&rt.Key),
+		validation.Field(&rt.Country),
+		validation.Field(&rt.Ext),
+	)
 }
 
 // Total contains a set of Category Totals which in turn
